@@ -404,6 +404,37 @@ def _inline_in_function(caller: ast.AST, helpers: Dict[Tuple[Optional[str], str]
                             if isinstance(sub, list):
                                 do_list(sub)
                     continue
+            # a statement helper called somewhere inside a simple statement (`return f"{k}_{self._next(k)}"`): its
+            # body is placed before the statement and the call is replaced by the returned expression
+            if isinstance(st, (ast.Expr, ast.Assign, ast.AugAssign, ast.AnnAssign, ast.Return)):
+                nested_site = None
+                for sub in ast.walk(st):
+                    if isinstance(sub, (ast.Lambda, ast.ListComp, ast.SetComp, ast.DictComp, ast.GeneratorExp)):
+                        continue
+                    if isinstance(sub, ast.Call):
+                        h2 = lookup(sub)
+                        if h2 is not None and h2.kind == "stmts" and h2.node is not caller and not _inside_scope(st, sub):
+                            nested_site = (sub, h2)
+                            break
+                if nested_site is not None:
+                    sub, h2 = nested_site
+                    r2 = _expand(h2, sub, caller, None, "stmt")
+                    if r2 is not None and r2[1] is not None:
+                        stmts2, result2 = r2
+                        repl2: List[ast.stmt] = list(stmts2)
+                        if isinstance(result2, (ast.Name, ast.Constant)):
+                            val3: ast.AST = result2
+                        else:
+                            tmp2 = "result__i%d" % (sum(map(ord, h2.node.name)) % 97)
+                            repl2.append(ast.copy_location(ast.Assign(targets=[ast.Name(id=tmp2, ctx=ast.Store())], value=result2, lineno=st.lineno), st))
+                            val3 = ast.Name(id=tmp2, ctx=ast.Load())
+                        if _replace_node(st, sub, ast.copy_location(val3, sub)):
+                            for x in repl2:
+                                ast.fix_missing_locations(x)
+                            seq[i:i] = repl2
+                            h2.inlined += 1
+                            count += 1
+                            continue  # look at the inserted statements (and this one) again
             # expression helpers inside this statement's own expressions
             for fld, val in ast.iter_fields(st):
                 if fld in ("body", "orelse", "finalbody", "handlers", "cases"):
@@ -435,6 +466,29 @@ def _inline_in_function(caller: ast.AST, helpers: Dict[Tuple[Optional[str], str]
 
     do_list(caller.body)  # type: ignore[attr-defined]
     return count
+
+
+def _inside_scope(st: ast.AST, node: ast.AST) -> bool:
+    """node sits inside a lambda / comprehension of statement st (evaluated zero or many times)"""
+    for sc in ast.walk(st):
+        if isinstance(sc, (ast.Lambda, ast.ListComp, ast.SetComp, ast.DictComp, ast.GeneratorExp)):
+            if any(x is node for x in ast.walk(sc)):
+                return True
+    return False
+
+
+def _replace_node(root: ast.AST, old: ast.AST, new: ast.AST) -> bool:
+    for par in ast.walk(root):
+        for fld, val in ast.iter_fields(par):
+            if val is old:
+                setattr(par, fld, new)
+                return True
+            if isinstance(val, list):
+                for i, v in enumerate(val):
+                    if v is old:
+                        val[i] = new
+                        return True
+    return False
 
 
 def _renamed_into(targets: Optional[ast.AST], stmts: List[ast.stmt]) -> bool:
